@@ -11,6 +11,7 @@ from pyrepseq.metric import tcr_metric as TM  # noqa: E402
 from tidytcells import tr  # noqa: E402
 
 PROPERTY = "C09"
+QUICK_SCALE = 2
 RULE = ("anchor and comparison tables (1-10 rows) with TRAV/TRBV alleles drawn from the gene reference (incl. alleles lacking CDR2: "
         "TRAV40*01, TRAV2*02), arbitrary CDR3 strings (incl. empty), extra columns, index default / permuted / string / "
         "duplicated; all six metric classes; weights 1..9 for insertion, deletion, substitution, alpha, beta, cdr1, cdr2, cdr3 "
@@ -117,6 +118,8 @@ def check(case, rec):
     dfS = frame(S, case.get("index2", "default"), case.get("extra", True), only)
     bR, bS = dfR.copy(deep=True), dfS.copy(deep=True)
     m = make_metric(name, w)
+    # other metric objects (other classes / other weights) are constructed BEFORE m is used: metric objects must not share state
+    others = [make_metric(n2, {"ins": 2, "del": 3, "sub": 4, "alpha": 5, "beta": 6, "cdr1": 7, "cdr2": 8, "cdr3": 9}) for n2 in ("Cdr", name)]
     got = np.asarray(call("cdist", m.calc_cdist_matrix, dfR, dfS))
     if got.shape != (len(R), len(S)):
         raise Violation("tcr-cdist-shape", f"{name}: shape {got.shape}")
@@ -125,6 +128,11 @@ def check(case, rec):
         i, j = np.argwhere(got.astype(float) != want)[0]
         raise Violation("tcr-cdist-value", f"{name} weights={w}: [{i},{j}] = {got[i, j]!r}, weighted sum = {want[i, j]} "
                                            f"(anchor={loops_of(R[i])}, comparison={loops_of(S[j])})")
+    wo = {"ins": 2, "del": 3, "sub": 4, "alpha": 5, "beta": 6, "cdr1": 7, "cdr2": 8, "cdr3": 9}
+    go = np.asarray(call("cdist", others[1].calc_cdist_matrix, dfR, dfS)).astype(float)
+    wanto = np.array([[oracle(name, {k_: v_ for k_, v_ in wo.items() if k_ in accepted}, r, s_) for s_ in S] for r in R], dtype=float)
+    if not np.array_equal(go, wanto):
+        raise Violation("tcr-metric-objects-share-state", f"{name}: a second metric object with weights {wo}, constructed earlier, gives wrong values after another object was used")
     # pdist = condensed upper triangle of the self cdist
     v = np.asarray(call("pdist", m.calc_pdist_vector, dfR))
     n = len(R)
